@@ -12,14 +12,17 @@
 #include <string>
 #include <vector>
 #include <cstdio>
+#include <mutex>
+#include <atomic>
 
 namespace {
-struct VObj { long id; long tag; bool live; };
+struct VObj { long id; std::atomic<long> tag; std::atomic<bool> live; VObj(long i, long t) : id(i), tag(t), live(true) { } };
 long g_next = 0;
 std::vector<VObj*> g_all;
 std::string g_log;
+std::mutex g_mu;          /* clones run on several threads and share the objects */
 
-void ev(const std::string& s) { g_log += s; g_log += '\n'; }
+void ev(const std::string& s) { std::lock_guard<std::mutex> lk(g_mu); g_log += s; g_log += '\n'; }
 std::string q(const std::string& s) {
   std::string o = "\"";
   for (unsigned char c : s) { if (c == '"' || c == '\\') { o += '\\'; o += (char)c; } else if (c < 0x20 || c >= 0x7f) { char b[8]; snprintf(b, sizeof b, "\\u%04x", c); o += b; } else o += (char)c; }
@@ -42,6 +45,7 @@ std::string argJson(bloc::Value& v) {
 
 extern "C" const char* VOBJ_drain() {
   static std::string out;
+  std::lock_guard<std::mutex> lk(g_mu);
   out.swap(g_log);
   g_log.clear();
   return out.c_str();
@@ -109,8 +113,8 @@ void* VObjPlugin::createObject(int ctor_id, bloc::Context& ctx, const std::vecto
     if (!src->live) ev("{\"e\":\"use_after_destroy\",\"id\":" + std::to_string(src->id) + "}");
     tag = src->tag + 1000;
   }
-  VObj* o = new VObj{ ++g_next, tag, true };
-  g_all.push_back(o);
+  VObj* o;
+  { std::lock_guard<std::mutex> lk(g_mu); o = new VObj(++g_next, tag); g_all.push_back(o); }
   ev("{\"e\":\"create\",\"id\":" + std::to_string(o->id) + ",\"ctor\":" + std::to_string(ctor_id) + ",\"tag\":" + std::to_string(tag) + ",\"args\":" + a + "}");
   return o;
 }
